@@ -116,4 +116,17 @@ theorem decode_encode (m : Msg) (h : WF m) (rest : Bytes) :
   rw [decRecs_recBytes m.zone_control h]
   rfl
 
+/-! ### the run-time well-formedness test decides `WF` -/
+
+theorem wfSettingBool_iff (s : Option ZoneSetting) : wfSettingBool s = true ↔ WFSetting s := by
+  rcases s with _ | (v | p | sp) <;>
+    simp [wfSettingBool, WFSetting]
+
+theorem wfRecBool_iff (z : ZoneControlData) : wfRecBool z = true ↔ WFRec z := by
+  simp only [wfRecBool, WFRec, Bool.and_eq_true, decide_eq_true_eq, wfSettingBool_iff]
+
+theorem wfBool_iff (m : Msg) : wfBool m = true ↔ WF m := by
+  simp only [wfBool, WF, List.all_eq_true]
+  exact ⟨fun h z hz => (wfRecBool_iff z).1 (h z hz), fun h z hz => (wfRecBool_iff z).2 (h z hz)⟩
+
 end PyAirtouch.Lemmas.At5C020
